@@ -825,6 +825,7 @@ class MimeTypeRegistry(enum.Enum):
 @attr.s
 class FieldValueMimeType(FieldValueComponentBase):
     type = attr.ib(
+        converter=lambda value: value.lower() if isinstance(value, six.string_types) else value,
         validator=attr.validators.instance_of(six.string_types),
         default=None,
     )
